@@ -39,15 +39,29 @@ let run_case op t =
           | Some s -> join [ "ok"; string_of_int (List.length s); bytes_s s ]
           | None -> join [ "too_large"; string_of_int len ] in
       (m, p)
-  | "from_integer" ->
+  | "from_integer" | "from_integer_buf" ->
+      let full = op = "from_integer_buf" in
       let ty = ity_of (next_str t) in
       let term = next_bool t in
       let base = next_int t in let len = next_int t in let v = next_z t in
       let m = res_s (fun ((b, err), e) ->
-          join [ (if err then "overflow" else "ok");
-                 (match e with None -> "null" | Some e -> string_of_int (int_of_nat e)); bytes_s b ])
+          if full then
+            join [ (if err then "overflow" else "ok");
+                   (match e with None -> "null" | Some e -> string_of_int (int_of_nat e)); bytes_s b ]
+          else if err then "overflow"
+          else
+            let n = (match e with None -> 0 | Some e -> int_of_nat e) in
+            join ([ "ok"; bytes_s (firstn_l n b) ] @ (if term then [ str_of_z (List.nth b n) ] else [])))
           (from_integer_m ty term v (z_of_int base) (prefill len)) in
-      (m, "na")
+      (* spec: the text (and the terminator) when len has room for it, an error otherwise *)
+      let p =
+        if full || not (dom_charconv base) then "na"
+        else
+          let s = to_text (z_of_int base) v in
+          if List.length s + (if term then 1 else 0) <= len
+          then join ([ "ok"; bytes_s s ] @ (if term then [ "0" ] else []))
+          else "overflow" in
+      (m, p)
   | "from_chars" | "from_chars_ovf" ->
       let ty = ity_of (next_str t) in
       let base = next_int t in let s = next_codes t in
